@@ -60,35 +60,16 @@ GroupFacts(sc, D) == IF D = {} THEN 1 ELSE
    LET top == {c \in D : \A d \in D : RLe(sc[d], sc[c])} IN Fact(Cardinality(top)) * GroupFacts(sc, D \ top)
 TieProb(T, tb, sc) == IF tb = "random" THEN <<1, Fact(Cardinality(T))>> ELSE <<1, GroupFacts(sc, T)>>
 
-\* ------------------------------------------------------------------ transfers
-Pile(p, w) == {r \in DOMAIN p : r[1] = {w}}
-TransferValue(t) == IF t[1] = 0 THEN R(0) ELSE RDiv(RSub(t, R(thr)), t)       \* (tally - threshold) / tally
-FracOne(p, w, t) == [r \in DOMAIN p |-> IF r[1] = {w} THEN RMul(p[r], TransferValue(t)) ELSE p[r]]
+\* ------------------------------------------------------------------ transfers (module Transfers, at this count's threshold)
+TransferValue(t) == TransferValueQ(t, thr)
+FracOne(p, w, t) == FracOneQ(p, w, t, thr)
 RECURSIVE FracAll(_,_,_)
 FracAll(p, W, sc) == IF W = {} THEN p ELSE LET w == CHOOSE x \in W : TRUE IN FracAll(FracOne(p, w, sc[w]), W \ {w}, sc)
-(* random transfer: whole ballots, a sub-bag of the winner's transferable unit ballots *)
-Transferable(p, w) == {r \in Pile(p, w) : Len(r) > 1}
-RandPicks(p, w, sc) ==
-  LET pile == Transferable(p, w)
-      tot  == SumInt([r \in pile |-> p[r][1]], pile)
-      s    == RFloor(sc[w]) - thr
-      K    == IF s < tot THEN s ELSE tot                     \* min(surplus, transferable)
-  IN {f \in [pile -> 0..K] : (\A r \in pile : f[r] <= p[r][1]) /\ SumInt(f, pile) = K}
-RECURSIVE Binom(_,_)
-Binom(n, k) == IF k = 0 \/ k = n THEN 1 ELSE IF k < 0 \/ k > n THEN 0 ELSE Binom(n-1, k-1) + Binom(n-1, k)
-(* multivariate hypergeometric probability of the pick f *)
-PickProb(p, w, f) ==
-  LET pile == DOMAIN f
-      tot  == SumInt([r \in pile |-> p[r][1]], pile)
-      K    == SumInt(f, pile)
-  IN Norm(FoldSet(LAMBDA r, acc : Binom(p[r][1], f[r]) * acc, 1, pile), Binom(tot, K))
-ApplyPick(p, w, f) == [r \in ((DOMAIN p \ Pile(p, w)) \cup {x \in DOMAIN f : f[x] > 0}) |->
-                          IF r \in DOMAIN f THEN R(f[r]) ELSE p[r]]
+RandPicks(p, w, sc) == RandPicksQ(p, w, sc[w], thr)
 (* set of <<bag, probability>> after transferring the piles of all winners in W *)
 RECURSIVE RandAll(_,_,_,_)
 RandAll(p, W, sc, pr) == IF W = {} THEN {<<p, pr>>} ELSE LET w == CHOOSE x \in W : TRUE IN
      UNION { RandAll(ApplyPick(p, w, f), W \ {w}, sc, RMul(pr, PickProb(p, w, f))) : f \in RandPicks(p, w, sc) }
-IntegerBag(p) == \A r \in DOMAIN p : RIsInt(p[r])
 AfterTransfer(p, W, sc) ==
   IF cfg.xfer = "fractional" THEN {<<RemoveCands(Positive(FracAll(p, W, sc)), W), R(1)>>}
   ELSE IF cfg.xfer = "full"  THEN {<<RemoveCands(p, W), R(1)>>}
@@ -376,8 +357,13 @@ ThresholdFixed == [][stage = "main" /\ stage' = "main" => thr' = thr]_vars
 (* C03: totals never increase; an election round consumes at least the threshold per quota-elected candidate; *)
 (* an elimination loses exactly the weight of the ballots left with no surviving choice                        *)
 ConservationAt(i) ==
-  LET a == rounds[i-1].bag  b == rounds[i].bag IN
+  LET a == rounds[i-1].bag  b == rounds[i].bag
+      el == UNION Range(rounds[i].elected)  out == UNION Range(rounds[i].eliminated) IN
   /\ RLe(Total(b), Total(a))
+  /\ (cfg.rule \in STVFamily \/ (cfg.rule = "Alaska" /\ i >= 3)) =>
+       /\ (el = {} /\ out # {}) => Total(b) = RSub(Total(a), Exhausted(a, out))
+       /\ (el # {} /\ cfg.xfer # "full" /\ \A c \in el : c \in DOMAIN rounds[i-1].scores /\ RLe(R(thr), rounds[i-1].scores[c]))
+             => RLe(R(thr * Cardinality(el)), RSub(Total(a), Total(b)))
 ConservationAll == \A i \in 2..Len(rounds) : ConservationAt(i)
 ConservationLast == Len(rounds) >= 2 => ConservationAt(Len(rounds))
 (* C07: Droop proportionality for solid coalitions, read off the initial profile *)
